@@ -94,6 +94,12 @@ fn mutate_node(t: &mut T, variant: usize) -> bool {
             0 => *k = "KZ".into(),
             _ => return false,
         },
+        RawPkH(h) => match variant {
+            // another hash, differing in the first / in the last byte
+            0 => *h = format!("ff{}", &h[2..]),
+            1 => *h = format!("{}ff", &h[..h.len() - 2]),
+            _ => return false,
+        },
         // lock values that differ only in bits some comparison might ignore: +1, the BIP-68
         // type flag (bit 22), bits above the 16-bit value mask, the height/time threshold
         Older(n) => match variant {
@@ -191,9 +197,33 @@ fn run_ctx<Ctx: Cx>(rep: &Report, ctx: &str, tap: bool, n_all: usize, n_nb: usiz
     let mut seen: BTreeSet<String> = BTreeSet::new();
     let mut u: Vec<Item<Ctx>> = vec![];
     let mut nb_pairs: Vec<(Item<Ctx>, Item<Ctx>)> = vec![];
+    // every term with pk_h also in its raw-hash spelling (what the script decoder produces)
+    let to_raw = |t: &T| -> Option<T> {
+        let mut c = t.clone();
+        let mut changed = false;
+        fn rec(t: &mut T, changed: &mut bool) {
+            if let T::PkH(k) = t {
+                *t = T::RawPkH(<bitcoin::hashes::hash160::Hash as bitcoin::hashes::Hash>::hash(k.as_bytes()).to_string());
+                *changed = true;
+                return;
+            }
+            for c in t.children_mut() {
+                rec(c, changed);
+            }
+        }
+        rec(&mut c, &mut changed);
+        if changed { Some(c) } else { None }
+    };
     for (lvl, terms) in te.levels.iter().enumerate() {
+        let mut bases: Vec<T> = vec![];
         for m in terms {
             let t = walk(m).relabel_distinct();
+            if let Some(r) = to_raw(&t) {
+                bases.push(r);
+            }
+            bases.push(t);
+        }
+        for t in bases {
             let base = match mk(&t) {
                 Some(b) => b,
                 None => continue,
